@@ -329,6 +329,18 @@ def r1(ctx):
 # ============================================================================ R2 address / direction roles
 
 def ctor_args(repo, call: ast.Call, cls_name: str, module: Optional[str] = None) -> Dict[str, ast.AST]:
+    params = ctor_params(repo, cls_name, module)
+    out = {}
+    for i, a in enumerate(call.args):
+        if i < len(params):
+            out[params[i]] = a
+    for k in call.keywords:
+        if k.arg:
+            out[k.arg] = k.value
+    return out
+
+
+def ctor_params(repo, cls_name: str, module: Optional[str] = None) -> List[str]:
     ci = repo.cls(cls_name, module)
     init = repo.lookup_method(ci, "__init__")
     if init is not None:
@@ -351,14 +363,7 @@ def ctor_args(repo, call: ast.Call, cls_name: str, module: Optional[str] = None)
                     continue
                 if st.target.id not in params:
                     params.append(st.target.id)
-    out = {}
-    for i, a in enumerate(call.args):
-        if i < len(params):
-            out[params[i]] = a
-    for k in call.keywords:
-        if k.arg:
-            out[k.arg] = k.value
-    return out
+    return params
 
 
 def r2(ctx):
@@ -534,10 +539,10 @@ def r2(ctx):
             raise AnalysisError(f"C06.R2 send_datagram[{m}]: {e}")
         built = [v for v in env.values() if isinstance(v, CallVal) and v.func.split(".")[-1] == "UDPPacket"]
         ctx.require(len(built) == 1, f"send_datagram[{m}]: expected one UDPPacket construction")
-        pos = list(built[0].args) + [None] * 4
-        kws = dict(built[0].kwargs)
-        srcv, dstv = kws.get("src_addr", pos[0]), kws.get("dst_addr", pos[1])
-        datv, dirv = kws.get("data", pos[2]), kws.get("direction", pos[3])
+        kws = dict(zip(ctor_params(repo, "UDPPacket", BTRANS), built[0].args))
+        kws.update(dict(built[0].kwargs))
+        srcv, dstv = kws.get("src_addr"), kws.get("dst_addr")
+        datv, dirv = kws.get("data"), kws.get("direction")
         want = ("self.near_host", "self.host") if m == "OUT" else ("self.host", "self.near_host")
         got = (getattr(srcv, "text", None), getattr(dstv, "text", None))
         ctx.ob("C06.R2", f"Circuit.send_datagram[{m}]: (src, dst) = {want}", got == want, sd.where, f"builds {got}")
